@@ -45,7 +45,7 @@ theorem openChunk_prefix_C5b {cfg : Cfg} (ht : cfg.truncate = true) {rs : List R
 was loaded and replayed to `sm2`. -/
 def OpenAcc.loadedLastC5b (a : OpenAcc) (id : Nat) (rs : List Record) (tr : Option Nat) (sm2 : Store) :
     OpenAcc :=
-  { a.pre.afterTrunc id tr with
+  { (a.pre.afterTrunc id tr).synced id with
     sm := { sm2 with closed := sm2.closed ++ [⟨offsetsFrom id (sizes rs), sm2.st⟩] },
     prevEnd := some (lastOff (offsetsFrom id (sizes rs))),
     lastLogId := sm2.st.last,
@@ -110,7 +110,10 @@ theorem loads_prevEnd_C5b {cfg : Cfg} : ∀ (jl : List (Closed × List Record)) 
       subst hrs
       have hfiles' : ∀ p ∈ rest, ∃ f, (a.loaded c.id rs' sm2).fs.find p.1.id = some f ∧
           f.data = encAll p.2 ∧ AllWF p.2 ∧ offsetsFrom p.1.id (sizes p.2) = p.1.offsets :=
-        fun p hp => hfiles p (List.mem_cons_of_mem _ hp)
+        fun p hp => by
+          obtain ⟨f0, q1, q2, q3⟩ := hfiles p (List.mem_cons_of_mem _ hp)
+          obtain ⟨f1, r1, r2, _⟩ := Fs.find_sync_some c.id q1
+          exact ⟨f1, r1, r2.trans q2, q3⟩
       obtain ⟨i1, i2⟩ := ih _ _ hrest hfiles'
       intro p hp
       cases rest with
@@ -209,8 +212,10 @@ theorem openLoop_image_ok_C5b (cfg : Cfg) (ht : cfg.truncate = true) {img : Fs}
     (hcase : (e = .clean ∧ rest = []) ∨
      (e = .eof ∧ rest ≠ [] ∧ j < jo.length ∧ ∃ r t, r.WF ∧ t ≠ [] ∧ rest ++ t = encRecord r) ∨
      (∃ m, 1 ≤ m ∧ rest = List.replicate m 0 ∧ e = if m < 28 then .eof else .invalid))
-    (hstJ : stRun (jo.take j) stC = some stJ) (hlJ : idxRun (chunkOps oid (jo.take j)) lC = some lJ) :
-    ∃ (a1 : OpenAcc) (sm2 : Store), a1.fs = img ∧ a1.evs = [] ∧ a1.sm.st = stC ∧ a1.sm.log = lC ∧
+    (hstJ : stRun (jo.take j) stC = some stJ) (hlJ : idxRun (chunkOps oid (jo.take j)) lC = some lJ)
+    (hdur : AllDurable img) :
+    ∃ (a1 : OpenAcc) (sm2 : Store), a1.fs = img ∧ a1.evs = syncEvs (jc.map (·.1.id)) ∧
+      a1.sm.st = stC ∧ a1.sm.log = lC ∧
       a1.sm.closed = jc.map (·.1) ∧ a1.sm.removed = [] ∧ a1.sm.cfg = cfg ∧
       a1.sm.cache.maxItems = cfg.cacheItems ∧ a1.sm.cache.capacity = cfg.cacheCap ∧
       a1.sm.pending = [] ∧
@@ -227,8 +232,8 @@ theorem openLoop_image_ok_C5b (cfg : Cfg) (ht : cfg.truncate = true) {img : Fs}
   obtain ⟨a1, m1, m2, m3, m4, m5, m6, m7, m8, m9⟩ :=
     loads_repC cfg jc { sm := emptyStore cfg, fs := img } stC lC hrep hfiles hchc (fun p _ => rfl)
   obtain ⟨hfs1, hevs1⟩ := m1.fs_evs
-  have hfs1' : a1.fs = img := hfs1
-  have hevs1' : a1.evs = [] := hevs1
+  have hfs1' : a1.fs = img := by rw [hfs1]; exact hdur.syncAll_eq _
+  have hevs1' : a1.evs = syncEvs (jc.map (·.1.id)) := by rw [hevs1]; rfl
   obtain ⟨p1, p2⟩ := loads_prevEnd_C5b jc _ _ m1
     (fun p hp => by
       obtain ⟨f, k1, k2, k3, _, k5⟩ := hfiles p hp
